@@ -10,6 +10,7 @@ import Driver.Archive
 import Driver.Container
 import Driver.HashSet
 import Driver.Str
+import Driver.Lang
 import Driver.Target
 
 def main (args : List String) : IO UInt32 := do
@@ -26,5 +27,6 @@ def main (args : List String) : IO UInt32 := do
   | ["container"] => Driver.Container.main; return 0
   | ["hashset"] => Driver.HashSet.main; return 0
   | ["str"] => Driver.Str.main; return 0
+  | ["lang"] => Driver.Lang.main; return 0
   | ["target"] => Driver.Target.main; return 0
   | _ => IO.eprintln "usage: driver <area>"; return 2
